@@ -1,5 +1,6 @@
 import Syzgy.Lemmas.LshSound
 import Syzgy.Lemmas.LshComplete
+import Syzgy.Lemmas.LshLeaf
 /-!
 # C04 — approximate search is sound
 -/
@@ -33,6 +34,24 @@ theorem knn_finds_something (searchK K maxRadius : Nat) (hK : 0 < K) (hsK : 0 < 
     (hmatch : ∃ t ∈ forest, ∃ id ∈ t.ids, ∃ c, lookup id = some c ∧ c.acc = true) :
     (search searchK K 0 maxRadius forest lookup hpDist hpRight).1 ≠ [] :=
   search_nonempty searchK K maxRadius hK hsK forest lookup hpDist hpRight hprio hlive hmatch
+
+/-- **On collections small enough for one leaf per tree the default-precision search gives the exact
+    search's answer.** Every tree is a single leaf listing the live ids in its own order (the index
+    invariant of C05 before any split: up to 100 documents). For every K > 0, every `search_k > 0` and
+    every order in which the exact scan may visit the documents, the two results have the same length
+    and the same distances position by position; the default-precision result *is* the exact scan over
+    one of the leaves' orders (`single_leaf_scan`), so ids can differ only among equal distances. -/
+theorem single_leaf_equals_exact (searchK K maxRadius : Nat) (hK : 0 < K) (hsK : 0 < searchK) (leaves : List (List Nat))
+    (hne : leaves ≠ []) (live : List Nat) (hnd : live.Nodup) (hperm : ∀ l ∈ leaves, l.Perm live)
+    (lookup : Nat → Option Cand) (cand : Nat → Cand) (hlk : ∀ id ∈ live, lookup id = some (cand id))
+    (hpDist : H → Nat) (hpRight : H → Bool) (order : List Nat) (ho : order.Perm live) :
+    (search searchK K 0 maxRadius (leaves.map Tree.leaf) lookup hpDist hpRight).1.map (·.dist) =
+      (exactKnn K (order.map cand)).map (·.dist) :=
+  single_leaf_exact searchK K maxRadius hK hsK leaves hne live hnd hperm lookup cand hlk hpDist hpRight order ho
+
+/-- the distances of an exact K-nearest answer do not depend on the order the documents are visited in -/
+theorem exact_answer_is_order_independent (K : Nat) (c1 c2 : List Cand) (hp : c1.Perm c2) :
+    (exactKnn K c1).map (·.dist) = (exactKnn K c2).map (·.dist) := knn_dists_unique K c1 c2 hp
 
 /-- the node queue (a transliteration of `container/heap`) neither loses nor duplicates a node -/
 theorem node_queue_is_a_multiset (a : Array PQItem) (x : PQItem) :
